@@ -71,6 +71,11 @@ trait Coll {
     fn known(&self) -> usize;
     fn del(&mut self, i: usize);
     fn idx(&self, i: usize) -> u64;
+    /// exclusive access by identifier (`get_mut`), where the collection has it: panics exactly when
+    /// `idx` does (an identifier is absent for every kind of access or for none)
+    fn touch_mut(&mut self, i: usize) {
+        let _ = self.idx(i);
+    }
     fn get(&self, _i: usize) -> Option<u64> {
         unreachable!()
     }
@@ -136,6 +141,9 @@ impl Coll for Types {
         let t = self.m.types.get(self.ids[i].unwrap());
         self.vals[&(t.params().to_vec(), t.results().to_vec())]
     }
+    fn touch_mut(&mut self, i: usize) {
+        let _ = self.m.types.get_mut(self.ids[i].unwrap());
+    }
     fn iter(&mut self) -> Vec<(usize, u64)> {
         self.m.types.iter().map(|t| (t.id().index(), self.vals[&(t.params().to_vec(), t.results().to_vec())])).collect()
     }
@@ -169,6 +177,9 @@ impl Coll for TypesNamed {
     }
     fn idx(&self, i: usize) -> u64 {
         self.0.idx(i)
+    }
+    fn touch_mut(&mut self, i: usize) {
+        self.0.touch_mut(i)
     }
     fn iter(&mut self) -> Vec<(usize, u64)> {
         self.0.iter()
@@ -232,6 +243,9 @@ impl Coll for TypesEntry {
     fn idx(&self, i: usize) -> u64 {
         self.inner.idx(i)
     }
+    fn touch_mut(&mut self, i: usize) {
+        self.inner.touch_mut(i)
+    }
     fn iter(&mut self) -> Vec<(usize, u64)> {
         let k = self.k;
         self.inner.m.types.iter().filter(|t| t.id().index() >= k).map(|t| (t.id().index() - k, self.inner.vals[&(t.params().to_vec(), t.results().to_vec())])).collect()
@@ -280,6 +294,9 @@ macro_rules! plain_coll {
             fn idx(&self, i: usize) -> u64 {
                 let $item = self.m.$field.get(self.ids[i].unwrap());
                 $payload
+            }
+            fn touch_mut(&mut self, i: usize) {
+                let _ = self.m.$field.get_mut(self.ids[i].unwrap());
             }
             fn iter(&mut self) -> Vec<(usize, u64)> {
                 let shared: Vec<(usize, u64)> = self.m.$field.iter().map(|$item| ($item.id().index(), $payload)).collect();
@@ -364,6 +381,9 @@ impl Coll for ImportsByName {
             panic!("absent");
         }
     }
+    fn touch_mut(&mut self, i: usize) {
+        let _ = self.m.imports.get_mut(self.ids[i].unwrap());
+    }
     fn idx(&self, i: usize) -> u64 {
         let imp = self.m.imports.get(self.ids[i].unwrap());
         match imp.kind {
@@ -424,6 +444,9 @@ impl Coll for ExportsByName {
         if self.m.exports.remove(&n).is_err() {
             panic!("absent");
         }
+    }
+    fn touch_mut(&mut self, i: usize) {
+        let _ = self.m.exports.get_mut(self.ids[i].unwrap());
     }
     fn idx(&self, i: usize) -> u64 {
         let e = self.m.exports.get(self.ids[i].unwrap());
@@ -571,9 +594,15 @@ fn run_history<C: Coll>(ops: &[Op]) -> String {
                 if *i >= c.known() {
                     "unknown-id".into()
                 } else {
-                    match out::catch(|| c.idx(*i)) {
+                    let shared = match out::catch(|| c.idx(*i)) {
                         Ok(v) => format!("some{}", v),
-                        Err(_) => "absent".into(),
+                        Err(_) => "absent".to_string(),
+                    };
+                    let exclusive_absent = out::catch(|| c.touch_mut(*i)).is_err();
+                    if exclusive_absent != (shared == "absent") {
+                        format!("{}-BUT-{}-FOR-EXCLUSIVE-ACCESS", shared, if exclusive_absent { "absent" } else { "present" })
+                    } else {
+                        shared
                     }
                 }
             }
